@@ -2,7 +2,7 @@
 from __future__ import annotations
 
 import ast
-from typing import Dict, List
+from typing import Dict, List, Optional
 
 from ..engine import VFG, analyse_env, get_tree
 from ..loader import AnalysisError, short
@@ -36,10 +36,29 @@ DETERMINISTIC = {
     "routing.sokoban.generator.SimpleSolveGenerator": "fixed trivially solvable level",
     "routing.sokoban.generator.DeepMindGenerator": None,  # random: listed here only to document that it is NOT exempt
 }
-CHOICE_EXCEPTIONS = {
-    # keyed by (module, population argument): what is drawn from, not the name of the local it is stored in
-    ("routing.robot_warehouse.utils_spawn", "_POSSIBLE_DIRECTIONS"): "agent directions may repeat (they are not positions)",
-}
+def categorical_population(tree, m, pop) -> Optional[str]:
+    """The population of a choice is a module-level enumeration of categories (the members of an Enum, or a literal
+    list of constants), not a set of cells: several entities may receive the same category (e.g. RobotWarehouse agent
+    directions).  Decided from what the population IS, not from how it is called."""
+    if pop is None:
+        return None
+    q = tree.resolve_expr(m, pop)
+    lk = tree.lookup(q) if q else None
+    if not lk or lk[0] != "const":
+        return None
+    mod, expr = lk[1]
+    for n in ast.walk(expr):
+        if isinstance(n, ast.Name):
+            qq = tree.resolve_expr(mod, n)
+            ci = tree.classes.get(qq) if qq else None
+            if ci is not None and any("Enum" in ast.unparse(b) for b in ci.node.bases):
+                return f"population enumerates the members of {ci.name}: categories may repeat (they are not positions)"
+    if isinstance(expr, ast.Call) and expr.args and isinstance(expr.args[0], (ast.List, ast.Tuple)) and \
+            all(isinstance(x, ast.Constant) for x in expr.args[0].elts):
+        return "population is a literal list of categories: they may repeat (they are not positions)"
+    return None
+
+
 MIN_GENERATORS = 28
 
 
@@ -153,7 +172,7 @@ def check(tier: str) -> Result:
                 if isinstance(st, ast.Assign) and st.value is node and isinstance(st.targets[0], ast.Name):
                     tgt = st.targets[0].id
             pop = kw.get("a", node.args[1] if len(node.args) > 1 else None)
-            exc = CHOICE_EXCEPTIONS.get((short(m.name), ast.unparse(pop) if pop is not None else None))
+            exc = categorical_population(tree, m, pop)
             one = isinstance(shape, (ast.List, ast.Tuple)) and len(shape.elts) == 1 and isinstance(shape.elts[0], ast.Constant) and shape.elts[0].value == 1
             if exc:
                 res.add("C10.R2", f"{m.relpath}:{node.lineno}", short(m.name), f"multi-sample draw `{tgt}` (recorded exception)", True, exc)
